@@ -5,7 +5,10 @@
 `render` is a reader for the part of Python's %-format language the checks exercise: literal characters,
 `%%`, the conversions `%s` `%r` (any argument) and `%d` (integers only); anything else after `%` is
 malformed (`ValueError`), too few / too many / ill-typed arguments are `TypeError`s – in all these cases
-`logging` drops the record through `Handler.handleError`.  A record without arguments is not formatted. -/
+`logging` drops the record through `Handler.handleError`.  A record without arguments is not formatted.
+A call whose only argument is a non-empty mapping (`ctx.log_info("user %(name)s", {"name": …})`) is formatted by
+`msg % mapping` (`renderMap`: literal characters, `%%`, `%(key)s` `%(key)r` `%(key)d`; a missing key is a `KeyError`,
+an unnamed conversion is outside the modelled fragment). -/
 namespace Haiway.Logs
 
 inductive Level where | debug | info | warning | error
@@ -73,21 +76,39 @@ def pfx (c : Scope) : List Char :=
 inductive Arg where
   | int (n : Nat)
   | str (s : List Char)
+  | kvInt (key : List Char) (n : Nat)         -- one item of the single mapping argument
+  | kvStr (key : List Char) (s : List Char)
 deriving DecidableEq, Repr
 
 def showS : Arg → List Char
   | .int n => natChars n
   | .str s => s
+  | .kvInt _ n => natChars n
+  | .kvStr _ s => s
 
 def showR : Arg → List Char
   | .int n => natChars n
   | .str s => '\'' :: s ++ ['\'']       -- `repr` of a string without quotes or backslashes
+  | .kvInt _ n => natChars n
+  | .kvStr _ s => '\'' :: s ++ ['\'']
+
+def Arg.isKv : Arg → Bool
+  | .kvInt .. => true
+  | .kvStr .. => true
+  | _ => false
+
+/-- the value stored under `key` in the mapping (as a positional argument); the last item with that key wins -/
+def lookupKey (items : List Arg) (key : List Char) : Option Arg :=
+  items.reverse.findSome? fun a => match a with
+    | .kvInt k n => if k = key then some (.int n) else none
+    | .kvStr k s => if k = key then some (.str s) else none
+    | _ => none
 
 /-- one conversion applied to one argument; `none` = unsupported character or ill-typed argument -/
 def conv (k : Char) (a : Arg) : Option (List Char) :=
   if k = 's' then some (showS a)
   else if k = 'r' then some (showR a)
-  else if k = 'd' then (match a with | .int n => some (natChars n) | .str _ => none)
+  else if k = 'd' then (match a with | .int n => some (natChars n) | _ => none)
   else none
 
 /-- `fmt % args` for a tuple of arguments; `none` = the operator raises -/
@@ -105,9 +126,40 @@ def render : List Char → List Arg → Option (List Char)
         | [] => none
     else (render (k :: rest) args).map (c :: ·)
 
+/-- where the reader of `fmt % mapping` is: in literal text, after a `%`, inside `%(key`, or at the conversion character -/
+inductive Mode where
+  | text | pct | key (acc : List Char) | conv (key : List Char)
+
+/-- `fmt % mapping`; `none` = the operator raises (`ValueError` / `KeyError` / `TypeError`) or the format leaves the
+modelled fragment (an unnamed conversion) -/
+def renderMapAux : Mode → List Char → List Arg → Option (List Char)
+  | .text, [], _ => some []
+  | .text, c :: rest, items =>
+    if c = '%' then renderMapAux .pct rest items else (renderMapAux .text rest items).map (c :: ·)
+  | .pct, [], _ => none
+  | .pct, c :: rest, items =>
+    if c = '%' then (renderMapAux .text rest items).map ('%' :: ·)
+    else if c = '(' then renderMapAux (.key []) rest items
+    else none
+  | .key _, [], _ => none
+  | .key acc, c :: rest, items =>
+    if c = ')' then renderMapAux (.conv acc.reverse) rest items else renderMapAux (.key (c :: acc)) rest items
+  | .conv _, [], _ => none
+  | .conv key, c :: rest, items =>
+    match lookupKey items key with
+    | some a => (match conv c a with
+      | some txt => (renderMapAux .text rest items).map (txt ++ ·)
+      | none => none)
+    | none => none
+
+def renderMap (fmt : List Char) (items : List Arg) : Option (List Char) := renderMapAux .text fmt items
+
+/-- the call's only argument is a non-empty mapping (`logging` then formats with the mapping itself) -/
+def isMapping (args : List Arg) : Bool := !args.isEmpty && args.all Arg.isKv
+
 /-- `LogRecord.getMessage`: formatting is applied only when there are arguments -/
 def format (fmt : List Char) (args : List Arg) : Option (List Char) :=
-  if args.isEmpty then some fmt else render fmt args
+  if args.isEmpty then some fmt else if isMapping args then renderMap fmt args else render fmt args
 
 /-- the repaired `ScopeMetrics.log` escapes the prefix when the record will be %-formatted -/
 def escape : List Char → List Char
